@@ -148,6 +148,18 @@ def run_replay(witness_path, timeout=60):
         return {"outcome": "error", "confirmed": None, "detail": (p.stdout + p.stderr)[-600:]}
 
 
+def run_script(path, timeout=120):
+    """a known finding's own reproduction script against the tree under check: exit 1 = reproduces"""
+    env = dict(os.environ, PYTHONPATH=REPO + os.pathsep + VERIF, PYTHONDONTWRITEBYTECODE="1")
+    try:
+        p = subprocess.run(["/venv/bin/python" if os.path.exists("/venv/bin/python") else sys.executable,
+                            "-u", "-W", "ignore", path], capture_output=True, text=True, timeout=timeout, env=env)
+    except subprocess.TimeoutExpired:
+        return {"confirmed": True, "outcome": "hang", "detail": "script exceeded %ds" % timeout}
+    return {"confirmed": p.returncode == 1, "outcome": "exit %d" % p.returncode,
+            "detail": (p.stdout + p.stderr).strip()[-200:]}
+
+
 def main(argv=None):
     ap = argparse.ArgumentParser()
     ap.add_argument("prop")
@@ -288,6 +300,8 @@ def main(argv=None):
         wfile = f.get("witness_file")
         if wfile:
             rr = run_replay(os.path.join(VERIF, wfile))
+        elif f.get("witness_script"):
+            rr = run_script(os.path.join(VERIF, f["witness_script"]))
         if rr.get("confirmed"):
             out_lines.append("KNOWN-FINDING: property=%s %s" % (prop, f.get("what")))
             kf_reported.append(f.get("id"))
